@@ -122,7 +122,9 @@ DYNAMIC_EXPR_RE = re.compile(
         comment_tag=r"(?:\{#.*?#\})",
         start_quote=r"(?P<quote>['\"])",  # NOTE: Capture group so we check for the same quote at the end
         end_quote=r"(?P=quote)",
-    )
+    ),
+    # NOTE: The string may span multiple lines
+    re.DOTALL,
 )
 
 
